@@ -173,3 +173,21 @@ Definition byte_val (cleared : list (N * N)) (j : N) : N :=
   fold_left N.land (map snd (filter (fun c => fst c =? j) cleared)) 255.
 Definition sieve_bytes (sg : kseg) (cleared : list (N * N)) : list N :=
   map (fun j => byte_val cleared (N.of_nat j)) (seq 0 (N.to_nat (k_size sg))).
+
+(** the end masks of Erat::preSieve / sieveLastSegment on the byte array of a segment *)
+Definition and_first (m : N) (bytes : list N) : list N :=
+  match bytes with [] => [] | b :: r => N.land b m :: r end.
+Fixpoint and_last (m : N) (bytes : list N) : list N :=
+  match bytes with [] => [] | [b] => [N.land b m] | b :: r => b :: and_last m r end.
+Definition final_bytes (start stop : N) (is_last : bool) (sg : kseg) (cleared : list (N * N)) : list N :=
+  let b0 := sieve_bytes sg cleared in
+  let b1 := if k_low sg <=? start then and_first (nth (N.to_nat (Config.byteRemainder start)) unsetSmaller 0) b0 else b0 in
+  if is_last then and_last (nth (N.to_nat (Config.byteRemainder stop)) unsetLarger 0) b1 else b1.
+
+(** the byte arrays of all segments of a run, in order (the last one gets the stop mask) *)
+Fixpoint run_bytes (start stop : N) (result : list (kseg * list (N * N))) : list N :=
+  match result with
+  | [] => []
+  | [r] => final_bytes start stop true (fst r) (snd r)
+  | r :: rest => final_bytes start stop false (fst r) (snd r) ++ run_bytes start stop rest
+  end.
